@@ -62,7 +62,7 @@ verif_harness! {
     }
 }
 
-//@ harness name=sm4_roundtrip_ed prop=C01 tier=quick bits=1152 stub=1 est=35 desc="W: dec(enc(b)) == b on an arbitrary round-key state (superset of all keys), all blocks, t uninterpreted (any function works for a Feistel network)"
+//@ harness name=sm4_roundtrip_ed prop=C01 tier=quick bits=1152 stub=1 est=45 desc="W: dec(enc(b)) == b on an arbitrary round-key state (superset of all keys), all blocks, t uninterpreted (any function works for a Feistel network)"
 verif_harness! {
     name: sm4_roundtrip_ed,
     bytes: 128 + 16,
@@ -77,7 +77,7 @@ verif_harness! {
     }
 }
 
-//@ harness name=sm4_roundtrip_de prop=C01 tier=quick bits=1152 stub=1 est=30 desc="W: enc(dec(b)) == b on an arbitrary round-key state, all blocks, t uninterpreted"
+//@ harness name=sm4_roundtrip_de prop=C01 tier=quick bits=1152 stub=1 est=40 desc="W: enc(dec(b)) == b on an arbitrary round-key state, all blocks, t uninterpreted"
 verif_harness! {
     name: sm4_roundtrip_de,
     bytes: 128 + 16,
